@@ -29,7 +29,7 @@ ASSUMPTIONS = ["system ids are unique within a description and agent-group prefi
 EVENTS = []
 CURRENT = {}
 ME = "vf.props.c18"
-NAMES = ("DModel", "DSystem", "DAgent", "hook")
+NAMES = ("DModel", "DSystem", "DAgent", "hook", "swap_env_hook")
 
 
 class DModel(Model, IDecodable):
@@ -65,6 +65,13 @@ class DAgent(Agent, IDecodable):
 
 def hook(params: dict):
     EVENTS.append(("hook", params["key"], (params["model"] is CURRENT.get("model")) if "model" in params else None))
+
+
+def swap_env_hook(params: dict):
+    """a pre-agent hook that gives the model a fresh environment: agents decoded afterwards must go into THAT environment"""
+    from ECAgent.Core import Environment
+    EVENTS.append(("hook", params["key"], (params["model"] is CURRENT.get("model")) if "model" in params else None))
+    params["model"].set_environment(Environment(params["model"]))
 
 
 class DictDecoder(Decoder):
@@ -105,7 +112,7 @@ def build_description(spec, di):
     for gi, g in enumerate(spec.get("groups", [])[:4]):
         gd = _mod({"name": "DAgent", "number": max(0, min(int(g.get("n", 1)), 5)), "params": {"prefix": f"g{gi}_"}}, use_mod)
         if g.get("pre"):
-            gd["pre_agent_init"] = _mod({"func": "hook", "params": {"key": f"d{di}:pre_grp{gi}"}}, use_mod)
+            gd["pre_agent_init"] = _mod({"func": "swap_env_hook" if g.get("swap") else "hook", "params": {"key": f"d{di}:pre_grp{gi}"}}, use_mod)
         if g.get("post"):
             gd["post_agent_init"] = _mod({"func": "hook", "params": {"key": f"d{di}:post_grp{gi}"}}, use_mod)
         desc["agents"].append(gd)
@@ -196,7 +203,11 @@ def run_case(case):
                 if model.systems[f"sys{len(desc['systems'])}"] is not None:
                     raise Violation("system-extra", f"{where}: an unlisted system is registered")
                 ids = [a.id for a in model.environment]
-                want_ids = [f"g{gi}_{i}" for gi, gd in enumerate(desc["agents"]) for i in range(gd["number"])]
+                swaps = [gi for gi, gd in enumerate(desc["agents"]) if gd.get("pre_agent_init", {}).get("func") == "swap_env_hook"]
+                first_kept = swaps[-1] if swaps else 0      # agents decoded before the last swap live in a discarded environment
+                want_ids = [f"g{gi}_{i}" for gi, gd in enumerate(desc["agents"]) if gi >= first_kept for i in range(gd["number"])]
+                if swaps:
+                    labels.add("environment-swapped-by-hook")
                 if ids != want_ids:
                     raise Violation("agents", f"{where}: environment holds {ids}, expected {want_ids}")
                 if any(a.model is not model for a in model.environment):
@@ -241,7 +252,8 @@ def strategy(tier):
     system = st.fixed_dictionaries({"priority": wone_of(st.integers(-2, 3), st.integers(-10 ** 6, 10 ** 6)),
                                     "frequency": wone_of(st.none(), st.integers(1, 4)), "start": wone_of(st.none(), st.integers(-3, 3)),
                                     "end": wone_of(st.none(), st.integers(-1, 9)), "pre": st.booleans(), "post": st.booleans()})
-    group = st.fixed_dictionaries({"n": st.integers(0, 4), "pre": st.booleans(), "post": st.booleans()})
+    group = st.fixed_dictionaries({"n": st.integers(0, 4), "pre": st.booleans(), "post": st.booleans(),
+                                   "swap": st.sampled_from([False, False, False, True])})
     desc = st.fixed_dictionaries({"systems": st.lists(system, max_size=4), "groups": st.lists(group, max_size=4),
                                   "hooks": st.fixed_dictionaries({"pre_model": st.booleans(), "post_model": st.booleans()}),
                                   "module": st.sampled_from([True, True, False])})
